@@ -1179,7 +1179,7 @@ pub fn generate(family: &str, seed: u64, count: usize, emit: &mut dyn FnMut(Stri
         }
         "deep" => {
             let openers: &[&str] = &["(", "[", "#(", "'", "`", ",", ",@", "(a . ", "#u8(", "(a "];
-            for &n in &[1usize, 50, 100, 126, 127, 128, 129, 130, 200, 1000] {
+            for &n in &[1usize, 50, 100, 126, 127, 128, 129, 130, 200, 255, 256, 257, 300, 383, 384, 512, 520, 1000, 65536 + 5] {
                 for o in openers {
                     for ro in [R_DEFAULT, R_ELISP] {
                         let mut t = o.repeat(n);
@@ -1316,6 +1316,8 @@ pub fn value_basis() -> Vec<Value> {
         Value::symbol("λx"), Value::symbol("foo-bar"), Value::symbol("+.x"), Value::keyword("kw"), Value::keyword("λ"), Value::keyword("$x"), Value::keyword("+"),
         // keywords whose names are the reserved words: every keyword spelling is recognised before the nil/t rule
         Value::keyword("nil"), Value::keyword("t"), Value::keyword("nile"), Value::symbol("nil"), Value::symbol("t"),
+        // digit-initial names: symbols for a reader with leading-digit symbols (the Emacs Lisp preset), not plain elsewhere
+        Value::symbol("1+"), Value::symbol("2nd"), Value::symbol("3d-mode"), Value::keyword("1st"),
         Value::bytes(vec![]), Value::bytes(vec![0u8, 1, 127, 128, 255]), Value::bytes(vec![65u8]),
     ];
     let atoms = v.clone();
